@@ -802,12 +802,30 @@ METHODS = {
     "flatten": flatten, "view": view, "reshape": view, "expand": expand,
     "sum": reduce_("sum"), "prod": reduce_("prod"), "logsumexp": reduce_("lse"), "amax": reduce_("max"),
     "is_complex": lambda I, x: x.dtype == "complex", "is_floating_point": lambda I, x: x.dtype == "float",
-    "long": lambda I, x: Tensor(x.shape, x.elem, "long", x.comps), "to": lambda I, x, *a, **k: x,
+    "long": lambda I, x: Tensor(x.shape, (lambda idx, x=x: _to_int(x.elem(idx))), "long", x.comps), "to": lambda I, x, *a, **k: x,
     "dim": lambda I, x: x.rank, "size": lambda I, x, d=None: tuple(x.shape) if d is None else x.shape[ndim(d, x.rank, I)],
     "exp": unary("exp"), "log": unary("log"), "conj": unary("conj"), "contiguous": lambda I, x: x, "clone": lambda I, x: x,
     "detach": lambda I, x: x, "cpu": lambda I, x: x, "float": lambda I, x: Tensor(x.shape, x.elem, "float", x.comps),
     "numel": lambda I, x: zprod(x.shape),
+    "new_zeros": lambda I, x, *shape, **k: Tensor(list(shape[0]) if len(shape) == 1 and isinstance(shape[0], (list, tuple)) else list(shape),
+                                                  lambda idx: z3.RealVal(0), x.dtype),
+    "unbind": lambda I, x, dim=0: [index(I, x, tuple([slice(None)] * ndim(dim, x.rank, I) + [j])) for j in range(_concrete(x.shape[ndim(dim, x.rank, I)]))],
 }
+
+
+def _to_int(v):
+    """Tensor.long(): truncation of a real entry (an integer-valued entry is unchanged)"""
+    v = to_z3(v) if not is_z3(v) else v
+    return z3.ToInt(v) if z3.is_real(v) else v
+
+
+def _concrete(n):
+    if isinstance(n, int):
+        return n
+    t = z3.simplify(to_z3(n))
+    if z3.is_int_value(t):
+        return t.as_long()
+    raise Unsupported("unbind along a dimension of symbolic size")
 
 
 def install(I):
@@ -863,6 +881,30 @@ def install(I):
             n = z3.simplify(n)
         return Tensor([n], lambda idx: to_z3(lin(idx[0])) + lo, "long")
     ext["torch.arange"] = arange
+    ext["torch.empty"] = lambda I, a, k: Tensor(list(B.iterate(I, k.get("size", a[0] if a else ()))), lambda idx: z3.RealVal(0),
+                                                 "long" if "int" in str(getattr(k.get("dtype"), "dotted", "")) else "float")
+    ext["torch.addcmul"] = lambda I, a, k: binary(I, "add", a[0], binary(I, "mul", a[1], a[2]))
+
+    class Dist:
+        """torch.distributions.<D>(params).log_prob(x): an elementwise function of x and the parameters, broadcast as torch
+        does (assumed contract; the closed forms are part of the trusted base)"""
+
+        def __init__(self, name, params):
+            self.name, self.params = name, params
+
+        def __vf_getattr__(self, I_, attr):
+            if attr == "log_prob":
+                def log_prob(x):
+                    ts = [as_tensor(x)] + [as_tensor(p) for p in self.params]
+                    shape = broadcast_shapes(I, [t.shape for t in ts], "log_prob")
+                    rank = len(shape)
+                    return Tensor(shape, lambda idx: elemwise("logpdf_" + self.name, *[t.elem(bidx(t, idx, rank)) for t in ts]), "float")
+                return BoundBuiltin(log_prob)
+            raise Unsupported(f"distribution.{attr}")
+
+    ext["torch.distributions.Normal"] = lambda I, a, k: Dist("normal", [k.get("loc", a[0] if a else None), k.get("scale", a[1] if len(a) > 1 else None)])
+    ext["torch.distributions.Binomial"] = lambda I, a, k: Dist("binomial_" + ("probs" if "probs" in k else "logits"),
+                                                                [a[0] if a else k.get("total_count"), k.get("probs", k.get("logits"))])
     orig_call = I.call
 
     def call(f, args, kwargs):
